@@ -48,7 +48,7 @@ impl Prop for C01 {
         "C01"
     }
     fn rule(&self) -> &'static str {
-        "per seed: generated schemas (objects, interfaces incl. interface-implements-interface, inherited property pool, edges to objects/interfaces/ancestors/self with parameters) x 2 datasets (<= 6 vertices per concrete type, boundary integers in both representations, nulls, strings with regex metacharacters, duplicate neighbours) x ~10 type-directed queries (depth <= 4: plain/optional/fold/recurse edges, coercions, every filter operator with variable and tag operands incl. tags imported into (nested) folds and fold-count tags, count outputs/filters, edge parameters explicit and defaulted). Only queries accepted by the real frontend and by argument validation are executed; each (schema, dataset, query, args) is sent as (exec ...) [model = Interp over the rendered real IR] and (spec-exec ...) [model = declarative Spec over the generator's tree]. A case is non-trivial (nt:<feature>+rows) when the query uses at least one of fold / optional / recurse / tag / coercion AND the implementation returned at least one row on that dataset. Oracle here: implementation panics on accepted queries (keyed by panic site); the declarative comparison is done by ./check on the spec-exec answers."
+        "per seed: generated schemas (objects, interfaces incl. interface-implements-interface, inherited property pool, edges to objects/interfaces/ancestors/self with parameters) x 2 datasets (<= 6 vertices per concrete type, boundary integers in both representations, nulls, strings with regex metacharacters, duplicate neighbours) x ~10 type-directed queries (depth <= 4: plain/optional/fold/recurse edges, coercions, every filter operator with variable and tag operands incl. tags imported into (nested) folds and fold-count tags, count outputs/filters, edge parameters explicit and defaulted). Appended to these random worlds (after them in the one Rng stream, so they are unchanged): the DIRECTED tagged-regex worlds (quick 4, thorough 40; engine/tagged_regex.rs): schema I0 {id p s e0:[I0] e1:I0} / T0:I0 {e2:[T1]} / T1:I0, 2 datasets of 5..11 vertices whose tagged String property p comes in RUNS (length 1..3, in id order = start order) from a small pool of valid patterns that match some texts (a a.* ^b . \"\" b$ ^a ab), invalid patterns (( [a * \\) and null, biased to valid->invalid->valid alternation, texts s from a small pool; 8 queries, one per template: p @tag ... s @filter(op: regex|not_regex, value: [%tag]) with the filter on the same vertex / a neighbour / inside @optional / inside @fold (imported tag) / inside a nested fold, the tag on the root vertex / an inner vertex / inside an @optional scope (nonexistent-optional tag values), and the same tag used by two filters behind a variable filter and a coercion. These cases are tagged nt:tagged-regex-stream (whenever they executed; the regex table of each request lists every dataset string as a pattern, invalid ones as (<hex> 0)). Only queries accepted by the real frontend and by argument validation are executed; each (schema, dataset, query, args) is sent as (exec ...) [model = Interp over the rendered real IR] and (spec-exec ...) [model = declarative Spec over the generator's tree]. A case is non-trivial (nt:<feature>+rows) when the query uses at least one of fold / optional / recurse / tag / coercion AND the implementation returned at least one row on that dataset. Oracle here: implementation panics on accepted queries (keyed by panic site); the declarative comparison is done by ./check on the spec-exec answers."
     }
     fn generate(&self, tier: Tier, rng: &mut Rng) -> Vec<Case> {
         let (worlds, stats) = generate_worlds(rng, &WorldKnobs::for_tier(tier));
@@ -67,6 +67,10 @@ impl Prop for C01 {
     }
     fn post_tags(&self, e: &Evaluated) -> Vec<String> {
         let mut t = nontrivial_tags(e);
+        // directed family: the tagged regex filter saw a stream of contexts (whatever it let through)
+        if e.answer.starts_with("(rows") && e.tags.iter().any(|t| t == engine::tagged_regex::FEATURE) {
+            t.push(format!("nt:{}", engine::tagged_regex::FEATURE));
+        }
         if e.answer == "(rows)" {
             t.push("rows:0".into());
         } else if e.answer.starts_with("(rows") {
